@@ -688,7 +688,8 @@ func main() {
 		byClass[c] = append(byClass[c], f)
 	}
 	replayOut := filepath.Join(verifDir, "replays", prop)
-	violations := 0
+	violations := 0 // failing runs in classes that no known finding covers
+	knownRuns := 0  // failing runs that match a recorded known finding
 	var newViolations []string
 	knownSeen := map[int]bool{}
 	for _, c := range classes {
@@ -755,6 +756,10 @@ func main() {
 				knownSeen[i] = true
 			}
 		}
+		if isKnown {
+			knownRuns += len(byClass[c])
+			violations -= len(byClass[c])
+		}
 		if !isKnown {
 			newViolations = append(newViolations, fmt.Sprintf("VIOLATION property=%s replay=%s", prop, dst))
 			fmt.Printf("violation class %s (%d runs), first at run %d: %s\n", c, len(byClass[c]), withReplay.RunIndex, firstLine(withReplay.Msg))
@@ -804,6 +809,7 @@ func main() {
 		"components_real":            sp.Real,
 		"components_stub":            sp.Stub,
 		"workers":                    *workers,
+		"known_finding_runs":         knownRuns,
 	}
 	if enum && m.Exhausted && total == 0 {
 		cov["exhaustive"] = true
